@@ -20,12 +20,15 @@ Prog_4opsB == [p |-> <<O("batch", 0, <<1, 2>>), O("full", 0, E), O("batch", 0, <
 
 \* every producer history x every consumer history of length L over the operation alphabets,
 \* for every buffer size in NSet (values are made distinct by position)
-CONSTANTS L, NSet, Rich
+CONSTANTS L, NSet, Rich, Rot
 ProdAlpha(j) == {O("push", 10 * j + 1, E), O("batch", 0, <<10 * j + 1, 10 * j + 2, 10 * j + 3>>), O("full", 0, E)}
                 \cup (IF Rich THEN {O("batch", 0, <<10 * j + 1, 10 * j + 2>>)} ELSE {})
 ConsAlpha == {O("pop", 0, E), O("popbatch", 1, E), O("popbatch", 3, E), O("empty", 0, E)}
              \cup (IF Rich THEN {O("size", 0, E)} ELSE {})
 ProdProgs == {q \in [1 .. L -> UNION {ProdAlpha(j) : j \in 1 .. L}] : \A j \in 1 .. L : q[j] \in ProdAlpha(j)}
 ConsProgs == [1 .. L -> ConsAlpha]
-InitAll == \E nn \in NSet : \E pp \in ProdProgs : \E cp \in ConsProgs : InitWith(nn, [p |-> pp, c |-> cp])
+\* Rot: also start with head = tail = n-1 (the state after n-1 push/pop pairs), so that histories
+\* of length 2 already cross the index wrap-around
+InitAll == \E nn \in NSet : \E pp \in ProdProgs : \E cp \in ConsProgs :
+              \E k \in (IF Rot THEN {0, nn - 1} ELSE {0}) : InitAt(nn, [p |-> pp, c |-> cp], k)
 ==========================================================================
